@@ -1240,7 +1240,7 @@ pub(crate) fn align_recreated(twin: &Value, faulted: &Value) -> (Value, Value) {
 /// Whether cut point `k` (1-based) lies after a CA's object set was written
 /// by the pre-save listener and before the command that caused it is
 /// stored.
-fn in_presave_window(sites: &[String], k: usize) -> bool {
+pub(crate) fn in_presave_window(sites: &[String], k: usize) -> bool {
     // Find the last ca_objects store before k.
     let mut idx = None;
     for (i, site) in sites.iter().enumerate().take(k - 1) {
